@@ -220,6 +220,14 @@ fn shard() -> Option<(usize, usize)> {
     Some((it.next()?.parse().ok()?, it.next()?.parse().ok()?))
 }
 
+/// structured (file / schedule / history level) cases announce themselves before they run, so that a
+/// case which kills the process can be named by ./check (`VERIF_PROGRESS` = file to overwrite)
+pub fn progress(req: &str) {
+    if let Ok(path) = std::env::var("VERIF_PROGRESS") {
+        let _ = std::fs::write(path, req);
+    }
+}
+
 /// true while ./check bisects a process-killing case: only the shardable per-record sections run
 pub fn sharded() -> bool {
     std::env::var("VERIF_SHARD").is_ok()
